@@ -146,7 +146,13 @@ def run_case(case: dict) -> dict:
         pm = (node.rpdo if kind == "rpdo" else node.tpdo)[num]
         return net, node, pm
 
-    net1, node1, pm = mk_node()
+    try:
+        net1, node1, pm = mk_node()
+    except Exception as exc:  # noqa: every PDO number 1..512 the dictionary describes must be there
+        ev.append({"e": "nomap", "num": num, "repr": repr(exc)[:120]})
+        for i, e in enumerate(ev):
+            e["n"] = i + 1
+        return {"ev": ev, "dev0": case["dev0"], "kind": kind}
     ev.append({"e": "cfg", **cfg})
     pm.cob_id = cfg["cob"]
     pm.enabled = cfg["enabled"]
